@@ -49,7 +49,9 @@ Record case := mkCase { cs_init : cstate; cs_events : list event; cs_obs : list 
   cs_reimport : option (tclass * option snap * bool);
   (* events at which tenant 1's view (its tenant record, pending records, treasury balances, events and the
      results of its transactions) differs between this run and the run without the other tenants *)
-  cs_isodiff : list Z }.
+  cs_isodiff : list Z;
+  (* oracle transactions delivered in the FIRST block of the restarted chain (after the re-import), with their results *)
+  cs_restart : list (omsg * tclass) }.
 
 Definition zz_eqb (a b : Z * Z) : bool := (fst a =? fst b) && (snd a =? snd b).
 Definition zb_eqb (a b : Z * bytes) : bool := (fst a =? fst b) && bytes_eqb (snd a) (snd b).
@@ -181,8 +183,29 @@ Definition cmp_reimport (c : case) : list (Z * Z) :=
       end
   end.
 
+(* the first block of the restarted chain: the model handles the probes in the re-imported state at the next height *)
+Fixpoint restart_walk (c2 : cstate) (k : Z) (ps : list (omsg * tclass)) : list (Z * Z) :=
+  match ps with
+  | [] => []
+  | (m, cls) :: ps' =>
+      let '(c3, o, _) := step c2 (EvOTx m) in
+      (match o with
+       | OTx cls' => if tclass_eqb cls cls' then [] else [(k, 45)]
+       | _ => [(k, 45)]
+       end) ++ restart_walk c3 k ps'
+  end.
+Definition cmp_restart (c : case) : list (Z * Z) :=
+  match cs_reimport c, cs_restart c with
+  | Some (COk, _, _), _ :: _ =>
+      match reimport (final_state (cs_init c) (cs_events c)) with
+      | Ok c2 => restart_walk (mkC (c_h c2 + 1) (c_s c2) (c_o c2) (c_fp c2)) (Z.of_nat (length (cs_events c))) (cs_restart c)
+      | _ => []
+      end
+  | _, _ => []
+  end.
+
 Definition mismatches_rt (c : case) : list (Z * Z) :=
-  match mismatches c with [] => cmp_reimport c | l => l end.
+  match mismatches c with [] => cmp_reimport c ++ cmp_restart c | l => l end.
 
 Definition all_mismatches (cs : list case) : list (Z * list (Z * Z)) :=
   filter (fun x : Z * list (Z * Z) => match snd x with [] => false | _ => true end)
